@@ -13,6 +13,7 @@
 //!                                      tabix / of the CSI aux block): Ok:<header>|consumed or Err:<kind>
 //!                                      (where the stream stands after an error inside the names block
 //!                                      is not compared: the reader stops early there)
+//!   csir  bgzf cap script              csi::io::Reader::new(src).read_index() on the BGZF block reader (NV.Io.CsiBodyProg.run_csi)
 //!   tbir  bgzf cap script              tabix::io::Reader::new(src).read_index(): the index reader stacked on
 //!                                      the BGZF block reader, on a compressed (possibly truncated / corrupt)
 //!                                      file; obs = Ok:<header> <references> <n_no_coor> or Err:<kind> (the
@@ -257,6 +258,50 @@ fn tbi_obs(r: &mut dyn BufRead) -> String {
     })
 }
 
+/// csi::io::Reader::new(src).read_index(): min_shift:depth, header, per reference bins | loffsets |
+/// metadata, n_no_coor
+fn csi_obs(r: &mut dyn BufRead) -> String {
+    use noodles_csi::BinningIndex;
+    use noodles_csi::binning_index::ReferenceSequence as _;
+    let mut rd = noodles_csi::io::Reader::new(r);
+    res_obs(guarded(AssertUnwindSafe(|| rd.read_index())), |ix| {
+        let h = ix.header().map(fmt_csi_header).unwrap_or_else(|| "-".into());
+        let refs: Vec<String> = ix
+            .reference_sequences()
+            .iter()
+            .map(|r| {
+                let bins: Vec<(usize, Vec<(u64, u64)>)> = r
+                    .bins()
+                    .iter()
+                    .map(|(id, b)| (*id, b.chunks().iter().map(|c| (u64::from(c.start()), u64::from(c.end()))).collect()))
+                    .collect();
+                let loffs: Vec<(usize, u64)> = r.index().iter().map(|(id, v)| (*id, u64::from(*v))).collect();
+                let meta = match r.metadata() {
+                    None => "-".to_string(),
+                    Some(m) => format!(
+                        "{}:{}:{}:{}",
+                        u64::from(m.start_position()),
+                        u64::from(m.end_position()),
+                        m.mapped_record_count(),
+                        m.unmapped_record_count()
+                    ),
+                };
+                [
+                    fmt_list(";", &bins, |(id, cs)| format!("{id}={}", fmt_pairs(cs))),
+                    fmt_list(",", &loffs, |(id, lo)| format!("{id}:{lo}")),
+                    meta,
+                ]
+                .join("|")
+            })
+            .collect();
+        let un = match ix.unplaced_unmapped_record_count() {
+            None => "-".to_string(),
+            Some(n) => n.to_string(),
+        };
+        format!("{}:{} {h} {} {un}", ix.min_shift(), ix.depth(), fmt_list("/", &refs, |s| s.clone()))
+    })
+}
+
 fn csih_obs(r: &mut dyn BufRead) -> String {
     let mut rr = r;
     match guarded(AssertUnwindSafe(|| noodles_csi::io::reader::index::read_header(&mut rr))) {
@@ -294,7 +339,7 @@ fn verdict(obs: String, plain: String, tag: &str, nontrivial: bool) -> Obs {
 
 pub fn run(c: &Case) -> Option<Obs> {
     let k = c.kind.as_str();
-    if !matches!(k, "gzir" | "bair" | "fair" | "bcfr" | "cramc" | "csih" | "tbir") {
+    if !matches!(k, "gzir" | "bair" | "fair" | "bcfr" | "cramc" | "csih" | "tbir" | "csir") {
         return None;
     }
     let data = c.b(0);
@@ -319,6 +364,11 @@ pub fn run(c: &Case) -> Option<Obs> {
             let (o, p) = both(&data, cap, script, &tbi_obs);
             let strip = |s: String| s.rsplit_once('|').map(|x| x.0.to_string()).unwrap_or(s);
             verdict(strip(o), strip(p), "tabix-index-reader-chunking-dependent", data.len() >= 28)
+        }
+        "csir" => {
+            let (o, p) = both(&data, cap, script, &csi_obs);
+            let strip = |s: String| s.rsplit_once('|').map(|x| x.0.to_string()).unwrap_or(s);
+            verdict(strip(o), strip(p), "csi-index-reader-chunking-dependent", data.len() >= 28)
         }
         "csih" => {
             let (o, p) = both_ok_pos(&data, cap, script, &csih_obs);
@@ -515,6 +565,55 @@ fn gen_tabix_bgzf(rng: &mut Rng) -> Vec<u8> {
         p.extend_from_slice(&block);
     }
     p.extend_from_slice(&bai[8..]);
+    bgzf_wrap(rng, p)
+}
+
+/// the CSI payload of a written index with its aux block / geometry varied: a generated (valid or
+/// invalid) tabix header as aux, l_aux smaller / larger than the header, l_aux = 0, negative,
+/// another depth (the metadata pseudo-bin id moves), invalid min_shift / depth
+fn gen_csi_bgzf(rng: &mut Rng) -> Vec<u8> {
+    let file = c12_files::csi_file(rng);
+    let mut p = Vec::new();
+    bgzf::io::Reader::new(&file[..]).read_to_end(&mut p).expect("generated CSI");
+    let l_aux = i32::from_le_bytes(p[12..16].try_into().unwrap()) as usize;
+    let rest = p[16 + l_aux..].to_vec();
+    let aux = p[16..16 + l_aux].to_vec();
+    let mut q = p[..4].to_vec();
+    let mut ms = p[4..8].to_vec();
+    let mut depth = p[8..12].to_vec();
+    match rng.below(10) {
+        0 => ms = (*rng.pick(&[0i32, -1, 256, 40, 64])).to_le_bytes().to_vec(),
+        1 => depth = (*rng.pick(&[-1i32, 11, 256, 0, 1, 4, 5, 6, 10, 17])).to_le_bytes().to_vec(),
+        _ => {}
+    }
+    q.extend(ms);
+    q.extend(depth);
+    match rng.below(9) {
+        0 | 6 | 7 | 8 => {
+            q.extend_from_slice(&(l_aux as i32).to_le_bytes());
+            q.extend(aux);
+        }
+        1 => q.extend_from_slice(&(*rng.pick(&[0i32, 0, -1, i32::MIN])).to_le_bytes()),
+        k => {
+            let h = gen_csi_header(rng);
+            let l = match k {
+                2 => h.len() as i64 - rng.range(1, 9) as i64,
+                3 => h.len() as i64 + rng.range(1, 9) as i64,
+                _ => h.len() as i64,
+            };
+            q.extend_from_slice(&(l.max(0) as i32).to_le_bytes());
+            q.extend(h);
+            if k == 3 && rng.chance(1, 2) {
+                // pad bytes inside the aux block (they are NOT skipped by read_aux)
+                q.extend(std::iter::repeat(0u8).take((l - (q.len() as i64 - 16)).max(0) as usize));
+            }
+        }
+    }
+    q.extend(rest);
+    bgzf_wrap(rng, q)
+}
+
+fn bgzf_wrap(rng: &mut Rng, mut p: Vec<u8>) -> Vec<u8> {
     if rng.chance(1, 4) {
         let how = *rng.pick(&["trunc", "trunc-tail", "flip", "tail"]);
         p = c12_files::malform(rng, &p, how);
@@ -553,6 +652,12 @@ pub fn generate(rng: &mut Rng, thorough: bool, w: &mut CaseWriter) {
         let wi = rng.chance(1, 3);
         let script = random_script(rng, f.len(), wi);
         w.push("tbir", vec![hex(&f), rng.pick(&raw_caps).to_string(), fmt_script(&script)]);
+    }
+    for _ in 0..(if thorough { 1200 } else { 100 }) {
+        let f = gen_csi_bgzf(rng);
+        let wi = rng.chance(1, 3);
+        let script = random_script(rng, f.len(), wi);
+        w.push("csir", vec![hex(&f), rng.pick(&raw_caps).to_string(), fmt_script(&script)]);
     }
     let buf_caps = [1usize, 2, 3, 5, 7, 16, 64, 4096];
     let n = if thorough { 1500 } else { 120 };
